@@ -37,7 +37,7 @@ RULE = (
     "policy, #flips class, n class)"
 )
 ASSUMPTIONS = ["ordinary (non false-positive-labelled) ground truth only", "thresholds compared per label with the same chain for all labels"]
-DECIDING = ["C08.chains", "C08.chains_with_flip", "C08.result_implications_checked", "C08.count_pairs_checked", "C08.ap_pairs_checked", "C08.map_pairs_checked", "C08.manager_chains"]
+DECIDING = ["C08.chains_2d", "C08.chains", "C08.chains_with_flip", "C08.result_implications_checked", "C08.count_pairs_checked", "C08.ap_pairs_checked", "C08.map_pairs_checked", "C08.manager_chains"]
 JOBS = {"quick": 4, "thorough": 14}
 
 LABELS = [AutowareLabel(v) for v in O.ORDINARY]
@@ -86,6 +86,9 @@ def evaluate_at(ctx: Ctx, results: List[Any], gts: List[Any], mode: MatchingMode
         correct.append(bool(res.is_result_correct(mode, thr)) if thr is not None else None)
     tp, fp = of_mod.get_positive_objects(results, LABELS, mode, thr_list)
     tn, fn = of_mod.get_negative_objects(gts, results, LABELS, mode, thr_list)
+    if results and not hasattr(results[0].estimated_object, "get_heading_bev"):
+        # 2D objects carry no heading: the TP / FN judgements are what there is to compare
+        return dict(t=t, correct=correct, n_tp=len(tp), n_fn=len(fn), aps=[], aphs=[], map=float("inf"), maph=float("inf"))
     ngt = {l: sum(1 for g in gts if g.semantic_label.label == l) for l in LABELS}
     m = Map(object_results_dict=shared, num_ground_truth_dict=ngt, target_labels=LABELS, matching_mode=mode, matching_threshold_list=thr_list)
     return dict(t=t, correct=correct, n_tp=len(tp), n_fn=len(fn), aps=[a.ap for a in m.aps], aphs=[a.ap for a in m.aphs], map=m.map, maph=m.maph)
@@ -189,6 +192,30 @@ def run(ctx: Ctx) -> None:
                         ctx.count("C08.chains_with_flip")
                     ctx.case(("results_grid", str(mode), c["case"]["policy"], min(flips, 3)), nontrivial=flips > 0)
 
+        # ---- 2D results (image ROIs) judged under every mode, also the two that have no score for 2D objects (plane
+        # distance, 3D IoU: the judgement then rests on the labels alone and cannot get worse when loosened)
+        for idx in ctx.indices("results_2d", 80 if ctx.quick else 8000):
+            r = ctx.rng("results_2d", idx)
+            c = matching.gen_matching_case(r, max_n=12, force_2d=True)
+            kw = c["kwargs"]
+            gts = [g for g in kw["ground_truth_objects"] if not O.is_fp_label(g)]
+            kw = dict(kw, ground_truth_objects=gts, evaluation_task=EvaluationTask.DETECTION2D, matchable_thresholds=None)
+            ctx.begin_case("results_2d", idx, **c["case"])
+            with ctx.case_guard("results_2d"):
+                results = mgr_mod.get_object_results(**kw)
+                for mode in MatchingMode:
+                    scores = []
+                    if mode in (MatchingMode.CENTERDISTANCE, MatchingMode.IOU2D):  # the two scores a 2D object has
+                        vals = [res.get_matching(mode) for res in results if res.ground_truth_object is not None]
+                        scores = [v.value for v in vals if v is not None and v.value is not None]
+                    if scores:
+                        chain = [t_ for t_ in looser_chain(mode, scores, r) if not (mode == MatchingMode.IOU2D and not 0.0 <= t_ <= 1.0)]
+                    else:
+                        chain = [0.0, 0.2, 0.5, 0.9, 1.0] if not mode.value.startswith("IoU") else [1.0, 0.9, 0.5, 0.2, 0.0]
+                    info = dict(mode=str(mode), policy=c["case"]["policy"], n_results=len(results), n_gt=len(gts), chain=chain, objects="2d")
+                    flips = chain_on_results(ctx, results, gts, mode, chain, info)
+                    ctx.count("C08.chains_2d")
+                    ctx.case(("results_2d", str(mode), bool(scores), min(flips, 3)), nontrivial=len(results) > 0)
         # ---- through the manager: several thresholds at once, frame and scene level ----
         for idx in ctx.indices("manager", 60 if ctx.quick else 8000):
             r = ctx.rng("manager", idx)
